@@ -282,10 +282,20 @@ def roundHalfEven (num : Int) (den : Nat) : Int :=
 
 /-- the relative offset a phrase denotes: whole months (years, decades folded in) and a linear part in µs -/
 structure RelDelta where
+  years : Int
   months : Int
   micros : Int
   period : Period
 deriving Repr, DecidableEq, Inhabited
+
+/-- the period rule of `_parse_date`: 'day' when days are counted, else the first of `Gen.freshPeriodKeys` that is counted -/
+def relPeriodOf (has : String → Bool) : Period :=
+  if has "days" then .day else
+  match Gen.freshPeriodKeys.find? has with
+  | some "weeks" => .week | some "months" => .month | some "years" => .year | _ => .day
+
+/-- the direction rule of `_parse_date`: `in` ⇒ +; otherwise + only when future dates are preferred and there is no `ago` -/
+def relPlus (hasIn hasAgo : Bool) (pd : PrefDates) : Bool := hasIn || (pd == .future && !hasAgo)
 
 /-- `get_kwargs` + `relativedelta(**kwargs)` normalisation; `none` = no unit found; ValueError for non-integer years/months -/
 def relDeltaOf (s : String) : Except PyErr (Option RelDelta) := do
@@ -300,9 +310,7 @@ def relDeltaOf (s : String) : Except PyErr (Option RelDelta) := do
       (kw.filter (fun e => e.1 != "decades" && e.1 != "years")) ++ [("years", yrs)]
     | none => kw
   let get := get kw
-  let period : Period := if (get "days").isSome then .day else
-    match Gen.freshPeriodKeys.find? (fun k => (get k).isSome) with
-    | some "weeks" => .week | some "months" => .month | some "years" => .year | _ => .day
+  let period : Period := relPeriodOf (fun k => (get k).isSome)
   let intOf := fun (v : Option (Int × Nat)) => match v with
     | none => some (0 : Int)
     | some (n, d) => if n % (d : Int) == 0 then some (n / d) else none
@@ -312,11 +320,11 @@ def relDeltaOf (s : String) : Except PyErr (Option RelDelta) := do
   let (num, den) := lin.foldl (fun (acc : Int × Nat) (k, us) => match get k with
     | some (n, d) => (acc.1 * d + n * us * acc.2, acc.2 * d)
     | none => acc) (0, 1)
-  return some { months := yrs * 12 + mos, micros := roundHalfEven num den, period }
+  return some { years := yrs, months := mos, micros := roundHalfEven num den, period }
 
 /-- `now ± relativedelta`: month arithmetic with day clamp first, then the linear part -/
 def applyRelDelta (now : DT) (sign : Int) (rd : RelDelta) : Except PyErr DT := do
-  let t1 ← shiftMonths now (sign * rd.months)
+  let t1 ← rdAddYM now (sign * rd.years) (sign * rd.months)
   t1.addMicros (sign * rd.micros)
 
 def freshnessParse (T : TzTable) (st : Settings) (s0 : String) : Except PyErr (Option (ADT × Period)) := do
@@ -339,7 +347,7 @@ def freshnessParse (T : TzTable) (st : Settings) (s0 : String) : Except PyErr (O
   if now.off.isNone then now := { now with off := some st.localOff }
   if !allWordsUnits s then return none
   let some rd ← relDeltaOf s | return none
-  let plus := (searchS {} reIn s).isSome || (st.preferDates == .future && (searchS {} reAgo s).isNone)
+  let plus := relPlus (searchS {} reIn s).isSome (searchS {} reAgo s).isSome st.preferDates
   let sign : Int := if plus then 1 else -1
   let t2 ← applyRelDelta now.t sign rd
   let mut date : ADT := { t := t2, off := now.off }
